@@ -392,6 +392,13 @@ func checkC15(P *Prog, r *Result) {
 	r.floor("C15/list-scalar-absent", 1)
 	// ---- empty-object: provider never a nil interface ----
 	P.checkProviderNonNil(r, "C15/empty-object")
+	P.checkSourceOpenWhileRead(r)
+	// a request factory decides from the request alone: it keeps nothing between calls (a memoised result makes the
+	// second schema that is handed the same factory see an empty record instead of the decode failure) - C08's
+	// write-effects rule on the front-end packages
+	shareRule(P, r, checkC08, "C08/write-effects", func(o Obligation) bool {
+		return strings.Contains(o.Construct, "/zjson.") || strings.Contains(o.Construct, "/zhttp.")
+	}, "C15/factory-stateless", 1)
 	_ = R
 }
 
@@ -1086,4 +1093,68 @@ func (P *Prog) valuesProviderBuilds(fn *ssa.Function) []provBuild {
 		})
 	}
 	return out
+}
+
+// checkSourceOpenWhileRead: a front end that closes its source (the request body handed to zjson.Decode is an
+// io.Closer) does so after it has read it: every Close in the decoding code of the front-end packages is deferred, or
+// no read of a source (Decoder.Decode, ParseForm, ParseMultipartForm, io.ReadAll, Read) is reachable from it. A body
+// closed first makes every well-formed request an invalid_json / invalid_form one.
+func (P *Prog) checkSourceOpenWhileRead(r *Result) {
+	isRead := func(ci *callInfo) bool {
+		name := ""
+		switch {
+		case ci.static != nil:
+			name = ci.static.Name()
+		case ci.invoke != nil:
+			name = ci.invoke.Name()
+		}
+		switch name {
+		case "Decode", "ParseForm", "ParseMultipartForm", "ReadAll", "Read", "ReadFrom":
+			return true
+		}
+		return false
+	}
+	n := 0
+	for _, fn := range P.Funcs {
+		pp := funcPkgPath(fn)
+		if !strings.HasSuffix(pp, "/zjson") && !strings.HasSuffix(pp, "/zhttp") {
+			continue
+		}
+		eachInstr(fn, func(b *ssa.BasicBlock, idx int, in ssa.Instruction) {
+			ci := callOf(in)
+			if ci == nil {
+				return
+			}
+			isClose := (ci.invoke != nil && ci.invoke.Name() == "Close") || (ci.static != nil && ci.static.Name() == "Close")
+			if !isClose {
+				return
+			}
+			n++
+			c := fmt.Sprintf("%s#Close@%d", fname(fn), n)
+			if _, isDefer := in.(*ssa.Defer); isDefer {
+				r.ok("C15/source-open-while-read", c, P.ipos(in), "the source is closed by a deferred call: after it was read")
+				return
+			}
+			// a read reachable after this Close?
+			var readAt ssa.Instruction
+			for j := idx + 1; j < len(b.Instrs); j++ {
+				if c2 := callOf(b.Instrs[j]); c2 != nil && isRead(c2) {
+					readAt = b.Instrs[j]
+				}
+			}
+			for rb := range reachFromSuccs(b, nil) {
+				for _, in2 := range rb.Instrs {
+					if c2 := callOf(in2); c2 != nil && isRead(c2) && readAt == nil {
+						readAt = in2
+					}
+				}
+			}
+			if readAt != nil {
+				r.bad("C15/source-open-while-read", c, P.ipos(in), "the source is closed before it is read ("+P.ipos(readAt)+"): a well-formed body cannot be decoded and is reported as invalid")
+			} else {
+				r.ok("C15/source-open-while-read", c, P.ipos(in), "no read of a source follows this Close")
+			}
+		})
+	}
+	r.floor("C15/source-open-while-read", 1)
 }
